@@ -19,7 +19,7 @@ RULE = ("uniform-regime annotations of 0..25 lines in the 36 dialect points; eac
         "{0,1,2,n-1,n,n+1,n+2}: yielded sequence == the file's lines, database content dump == reference import; a "
         "recording transform (modify / skip by falsy values) and inspect() with random look_for subsets and limits in "
         "{None,1,n-1,n,n+3}; non-trivial = n >= 3; distinct by (annotation text, form, checklines class)")
-REQUIRED = ["form sequences compared", "databases compared", "one-shot pulls logged", "transform calls recorded",
+REQUIRED = ["sparse-regime form comparisons", "form sequences compared", "databases compared", "one-shot pulls logged", "transform calls recorded",
             "inspect results compared"] + ["form=" + f for f in FORMS]
 ASSUMPTIONS = [
     "annotations are written in the uniform regime, so every window infers the same dialect and all forms are comparable",
@@ -66,7 +66,13 @@ def make_source(ctx, form, paths, text, ck, pulls, transform=None):
         return DataIterator(paths["plain"], checklines=ck, transform=transform), {}
     if form == "FeatureDB":
         return gffutils.FeatureDB(paths["srcdb"]), {}
-    feats = list(DataIterator(paths["plain"]))
+    if paths.get("sparse"):
+        # Feature objects as a user would build them one by one: each carries the dialect inferred from its own line
+        from gffutils.feature import feature_from_line
+        feats = [feature_from_line(l) for l in open(paths["plain"], encoding="utf-8").read().split("\n")
+                 if l and not l.startswith("#")]
+    else:
+        feats = list(DataIterator(paths["plain"]))
     if form == "list":
         return feats, {}
     if form == "generator":
@@ -115,7 +121,7 @@ def prepare_files(ctx, case):
 
 def cleanup(paths):
     for p in paths.values():
-        if os.path.exists(p):
+        if isinstance(p, str) and os.path.exists(p):
             os.unlink(p)
 
 
@@ -126,7 +132,11 @@ def forms(ctx, case):
     D = case["D"]
     text, lines, paths = prepare_files(ctx, case)
     n = len(lines)
+    sparse = case.get("regime") == "sparse"
+    recs = [it["rec"] for it in case["items"] if it["t"] == "feat"]
     try:
+        if sparse:
+            paths["sparse"] = True
         ref = None
         if n:
             try:
@@ -138,11 +148,28 @@ def forms(ctx, case):
             except Exception as ex:
                 ctx.violation(case, {"why": "reference import raised %r" % (ex,), "text": text})
                 return
+        sparse_refs = {}
         for form in case["forms"]:
-            if form == "FeatureDB" and not n:
+            if form == "FeatureDB" and (not n or sparse):
                 continue
             for ck in case["cks"]:
                 tag = {"form": form, "checklines": ck}
+                if sparse:
+                    # judged only when the reference vote recovers the file's dialect under both window conventions
+                    if not (F.same_dialect(F.window_vote(recs, D, ck), D) and F.same_dialect(F.window_vote(recs, D, ck + 1), D)):
+                        if form == "path":
+                            ctx.skip("sparse annotation: reference vote does not recover the dialect for this checklines")
+                        continue
+                    if ck not in sparse_refs:
+                        try:
+                            rdb = gffutils.create_db(paths["plain"], ":memory:", checklines=ck)
+                            sparse_refs[ck] = norm_dump(dbdump.dump_db(rdb))
+                            rdb.conn.close()
+                        except Exception as ex:
+                            ctx.violation(case, dict(tag, why="reference import raised %r" % (ex,), text=text))
+                            return
+                    ref = sparse_refs[ck]
+                    ctx.mon("sparse-regime form comparisons")
                 # --- sequence through DataIterator
                 pulls = []
                 try:
@@ -329,10 +356,14 @@ def inspect_case(ctx, case):
         cleanup(paths)
 
 
-def annotation(rng, nmax=25, lineno=False):
+def annotation(rng, nmax=25, lineno=False, sparse=False):
     D = rng.choice(M.points())
     n = rng.choice([0, 1, 2, 3, 4, 5, 8, 11, 12, 13, nmax]) if not lineno else rng.randrange(1, 14)
-    recs = F.uniform_records(rng, D, n, ids="unique", coords=True) if n else []
+    if sparse:
+        n = max(n, 2)
+        recs = F.sparse_records(rng, D, n, ids="unique")
+    else:
+        recs = F.uniform_records(rng, D, n, ids="unique", coords=True) if n else []
     for i, r in enumerate(recs):
         if D["fmt"] == "gtf" and r["featuretype"] == "exon":
             for c in ("start", "end"):
@@ -351,12 +382,13 @@ def annotation(rng, nmax=25, lineno=False):
 def run(ctx):
     rng = ctx.rng
     for _ in range(ctx.budget(120, 6000)):
-        D, items = annotation(rng)
+        sparse = rng.random() < 0.3
+        D, items = annotation(rng, sparse=sparse)
         n = sum(1 for it in items if it["t"] == "feat")
         cks = sorted(set([0, 1, 2, max(0, n - 1), n, n + 1, n + 2]))
         if ctx.tier == "quick":
             cks = sorted(set(rng.sample(cks, min(4, len(cks))) + [0]))
-        case = {"kind": "forms", "D": D, "items": items, "forms": FORMS, "cks": cks}
+        case = {"kind": "forms", "D": D, "items": items, "forms": FORMS, "cks": cks, "regime": "sparse" if sparse else "uniform"}
         execute(ctx, case)
         text = F.text_of(items, D)
         for form in FORMS:
